@@ -1,17 +1,219 @@
 import OrsoVerif.Model.Display
 import OrsoVerif.Generated.Display
+import OrsoVerif.Generated.DisplayExpr
 import OrsoVerif.Lemmas.DisplaySel
 import OrsoVerif.Lemmas.DisplayTable
+import OrsoVerif.Lemmas.DisplayColor
+import OrsoVerif.Lemmas.DisplayMd
 /-!
 # C18 — Rendering a DataFrame never fails and shows the right rows
 
 Property theorems only (helper lemmas live in `Lemmas/Display*.lean`).  The model is
-`Model/Display.lean`, which follows `orso/display.py` as repaired.  `rows` is any list (the rows of
-the frame, of any type), `limit ≥ 1`, `lazy` selects the eager / lazily-backed code path.
+`Model/Display.lean`: a hand-written skeleton of `orso/display.py` (as repaired) whose arithmetic is
+the record `srcArith`, built from `Generated/DisplayExpr.lean` — the expressions translated from the
+source's AST on every run.  Part 1 proves, expression by expression, that this arithmetic is the
+reference arithmetic `specArith`; a changed operator or constant in `display.py` makes exactly the
+matching `src_*` theorem fail.  All other theorems are stated about `srcArith`, i.e. about the code
+as it is now.  `rows` is any list, `limit ≥ 1`, `lazy` selects the eager / lazily-backed path.
 `labelFrom k xs` is the reference: the rows `xs`, in order, labelled `k, k+1, …`.
 -/
+set_option linter.unusedSimpArgs false
 namespace C18
-open Display
+open Display Gen.DisplayExpr
+
+/-! ## 0. Non-vacuity: concrete inputs on every path (kept before the theorems so that a failure here
+is not attributed to a theorem) -/
+
+/-- Non-vacuity: concrete frames on every path (eager/lazy × small/split/head-only). -/
+example :
+    visible srcArith 7 3 true false = [.data 1 0, .data 2 1, .data 3 2, .ellipsis, .data 5 4, .data 6 5, .data 7 6]
+    ∧ visible srcArith 7 3 true true = visible srcArith 7 3 true false
+    ∧ visible srcArith 6 3 true true = [.data 1 0, .data 2 1, .data 3 2, .data 4 3, .data 5 4, .data 6 5]
+    ∧ visible srcArith 4 3 true true = visible srcArith 4 3 true false
+    ∧ visible srcArith 2 3 true true = [.data 1 0, .data 2 1]
+    ∧ visible srcArith 7 3 false true = [.data 1 0, .data 2 1, .data 3 2]
+    ∧ visible srcArith 0 1 true true = [] := by decide
+
+/-- A concrete interval: −1 month, 93784 s = 1 day 2 h 3 min 4 s beyond… as Python's `divmod` gives it. -/
+example : splitInterval srcArith (-1) 93784 = { years := -1, months := 11, hours := 26, minutes := 3, seconds := 4 }
+    ∧ intervalParts srcArith 14 (-3) 3723 = [['1', 'y'], ['2', 'm', 'o'], ['-', '3', 'd'], ['1', 'h'], ['2', 'm'],
+        ['3', '.', '0', '0', 's']] := by decide
+
+/-- Non-vacuity of the width theorems: a concrete two-column ASCII frame, split table, narrow display. -/
+example :
+    let f : Frame := { names := [['i', 'd'], ['n', 'a', 'm', 'e']], types := [['0'], ['0']],
+                       rows := (List.range 7).map fun i => [.int (Int.ofNat i), .text ['a', 'b']] }
+    let p : Params := { limit := 2, tt := true, lazy := true, showTypes := true, maxCol := 30, displayWidth := 12,
+                        strict := false }
+    (match renderLines srcArith cwModel p f with
+      | .ok ls => ls.length == 10 && (ls.filter (·.1)).all (fun l => pwidth l.2 == 12)
+      | .error _ => false) = true
+    ∧ tableWidth (idxWidth srcArith p f) (colWidths srcArith p f) = 19 := by decide
+
+/-! ## 1. The arithmetic in the source is the reference arithmetic -/
+
+/-- `table.rowcount >= 2*limit + 1` is `2·limit + 1 ≤ n`. -/
+theorem src_head_tail_threshold : srcArith.headTail = specArith.headTail := by
+  funext n limit; simp only [srcArith, specArith]; rw [decide_eq_decide]; unfold headTailTest; omega
+
+/-- `table.rowcount > 2*limit` is `2·limit < n`. -/
+theorem src_eager_split_guard : srcArith.eagerSplit = specArith.eagerSplit := by
+  funext n limit; simp only [srcArith, specArith]; rw [decide_eq_decide]; unfold eagerSplitTest; omega
+
+/-- `i == limit`. -/
+theorem src_eager_ellipsis_guard : srcArith.eagerAtEll = specArith.eagerAtEll := by
+  funext i limit; simp only [srcArith, specArith]; rw [decide_eq_decide]; unfold eagerEllipsisTest; omega
+
+/-- `i >= limit` is `limit ≤ i`. -/
+theorem src_eager_tail_guard : srcArith.eagerInTail = specArith.eagerInTail := by
+  funext i limit; simp only [srcArith, specArith]; rw [decide_eq_decide]; unfold eagerTailTest; omega
+
+/-- `i == limit and lazy_length > 2*limit`. -/
+theorem src_lazy_ellipsis_guard : srcArith.lazyEll = specArith.lazyEll := by
+  funext i limit ll; simp only [srcArith, specArith]; rw [decide_eq_decide]; unfold lazyEllipsisTest; omega
+
+/-- `offset >= width` is `width ≤ offset`. -/
+theorem src_trunc_stop : srcArith.truncStop = specArith.truncStop := by
+  funext off w; simp only [srcArith, specArith]; rw [decide_eq_decide]; unfold truncStopTest; omega
+
+/-- `lazy_length += len(head) + 1`. -/
+theorem src_lazy_length_update : srcArith.lazyLenUpd = specArith.lazyLenUpd := by
+  funext ll h; simp only [srcArith, specArith, lazyLenUpdate]; omega
+
+/-- `lazy_length = t.rowcount` in head-only mode (repair F05). -/
+theorem src_lazy_length_head_only : srcArith.lazyHeadOnly = specArith.lazyHeadOnly := by
+  funext t; simp only [srcArith, specArith, lazyHeadOnlyLen]; omega
+
+/-- `min(max(cw, ctw, dw), max_column_width)`. -/
+theorem src_column_width : srcArith.colWidth = specArith.colWidth := by
+  funext a b c m; simp only [srcArith, specArith, Gen.DisplayExpr.colWidth, max3, min3]; omega
+
+/-- `i += table.rowcount - 2*limit` (repair F01: not `t.rowcount`). -/
+theorem src_eager_label_shift : srcArith.eagerShift = specArith.eagerShift := by
+  funext i n t l; simp only [srcArith, specArith, Gen.DisplayExpr.eagerShift]; omega
+
+/-- `str(i + 1)`. -/
+theorem src_eager_label : srcArith.eagerLabel = specArith.eagerLabel := by
+  funext i; simp only [srcArith, specArith, Gen.DisplayExpr.eagerLabel]; omega
+
+/-- `.rjust(index_width - 1)`. -/
+theorem src_label_pad : srcArith.labelPad = specArith.labelPad := by
+  funext iw; simp only [srcArith, specArith, Gen.DisplayExpr.labelPad]; omega
+
+/-- `offset += lazy_length - 2*limit`. -/
+theorem src_lazy_offset_update : srcArith.lazyOffsetUpd = specArith.lazyOffsetUpd := by
+  funext o ll l; simp only [srcArith, specArith, lazyOffsetUpdate]; omega
+
+/-- `str(i + offset)`. -/
+theorem src_lazy_label : srcArith.lazyLabel = specArith.lazyLabel := by
+  funext i o; simp only [srcArith, specArith, Gen.DisplayExpr.lazyLabel]; omega
+
+/-- `" " * (width - offset)`. -/
+theorem src_trunc_pad : srcArith.truncPad = specArith.truncPad := by
+  funext w o; simp only [srcArith, specArith, Gen.DisplayExpr.truncPad]; omega
+
+/-- `offset += 1` for a line break. -/
+theorem src_trunc_newline : srcArith.truncNl = specArith.truncNl := by
+  funext o; simp only [srcArith, specArith, truncNewlineStep]; omega
+
+/-- markdown `min(max(cw, dw), max_column_width)`. -/
+theorem src_md_column_width : srcArith.mdColWidth = specArith.mdColWidth := by
+  funext a b m; simp only [srcArith, specArith, Gen.DisplayExpr.mdColWidth]; omega
+
+/-- markdown `" " * (index_width - 2)`. -/
+theorem src_md_head_pad : srcArith.mdHeadPad = specArith.mdHeadPad := by
+  funext iw; simp only [srcArith, specArith, Gen.DisplayExpr.mdHeadPad]; omega
+
+/-- markdown `"-" * index_width`. -/
+theorem src_md_sep_len : srcArith.mdSepLen = specArith.mdSepLen := by
+  funext iw; simp only [srcArith, specArith, Gen.DisplayExpr.mdSepLen]; omega
+
+/-- markdown `str(i + 1)`. -/
+theorem src_md_label : srcArith.mdLabel = specArith.mdLabel := by
+  funext i; simp only [srcArith, specArith, Gen.DisplayExpr.mdLabel]; omega
+
+/-- markdown `.rjust(index_width - 1)`. -/
+theorem src_md_label_pad : srcArith.mdLabelPad = specArith.mdLabelPad := by
+  funext iw; simp only [srcArith, specArith, Gen.DisplayExpr.mdLabelPad]; omega
+
+/-- `len(str(lazy_length + 1)) + 2` (`len(str(x))` is the number of decimal digits of `x`). -/
+theorem src_index_width_lazy : srcArith.idxLazy = specArith.idxLazy := by
+  funext ll
+  have e : ((ll : Int) + 1).toNat = ll + 1 := by omega
+  simp only [srcArith, specArith, idxWidthLazy, digitsI, id, e]; omega
+
+/-- `len(str(len(table))) + 2` (`len(str(x))` is the number of decimal digits of `x`). -/
+theorem src_index_width_eager : srcArith.idxEager = specArith.idxEager := by
+  funext n
+  have e : ((n : Int)).toNat = n := by omega
+  simp only [srcArith, specArith, idxWidthEager, digitsI, id, e]; omega
+
+/-- markdown `len(str(len(table)))` (`len(str(x))` is the number of decimal digits of `x`). -/
+theorem src_md_index_width : srcArith.mdIdx = specArith.mdIdx := by
+  funext n
+  have e : ((n : Int)).toNat = n := by omega
+  simp only [srcArith, specArith, mdIdxWidth, digitsI, id, e]; omega
+
+/-- `lazy_length = 0`. -/
+theorem src_lazy_length_init : srcArith.lazyLenInit = specArith.lazyLenInit := by
+  simp only [srcArith, specArith, Gen.DisplayExpr.lazyLenInit] <;> rfl
+
+/-- `offset = 1`. -/
+theorem src_lazy_offset_init : srcArith.lazyOffset0 = specArith.lazyOffset0 := by
+  simp only [srcArith, specArith, lazyOffsetInit] <;> rfl
+
+/-- markdown data-width floor 4. -/
+theorem src_md_floor : srcArith.mdFloor = specArith.mdFloor := by
+  simp only [srcArith, specArith, Gen.DisplayExpr.mdFloor] <;> rfl
+
+/-- `divmod(seconds, 3600)`. -/
+theorem src_hour_divisor : srcArith.hourDiv = specArith.hourDiv := by
+  simp only [srcArith, specArith, Gen.DisplayExpr.hourDiv] <;> rfl
+
+/-- `divmod(seconds, 60)`. -/
+theorem src_minute_divisor : srcArith.minuteDiv = specArith.minuteDiv := by
+  simp only [srcArith, specArith, Gen.DisplayExpr.minuteDiv] <;> rfl
+
+/-- `divmod(months, 12)`. -/
+theorem src_month_divisor : srcArith.monthDiv = specArith.monthDiv := by
+  simp only [srcArith, specArith, Gen.DisplayExpr.monthDiv] <;> rfl
+
+/-- Hence the model executed by the driver (`srcArith`) is the model the lemmas are proved for. -/
+theorem src_arith_eq_spec : srcArith = specArith := by
+  apply Arith.ext
+  all_goals first
+    | exact src_head_tail_threshold
+    | exact src_eager_split_guard
+    | exact src_eager_ellipsis_guard
+    | exact src_eager_tail_guard
+    | exact src_lazy_ellipsis_guard
+    | exact src_trunc_stop
+    | exact src_lazy_length_update
+    | exact src_lazy_length_head_only
+    | exact src_column_width
+    | exact src_eager_label_shift
+    | exact src_eager_label
+    | exact src_label_pad
+    | exact src_lazy_offset_update
+    | exact src_lazy_label
+    | exact src_trunc_pad
+    | exact src_trunc_newline
+    | exact src_md_column_width
+    | exact src_md_head_pad
+    | exact src_md_sep_len
+    | exact src_md_label
+    | exact src_md_label_pad
+    | exact src_index_width_lazy
+    | exact src_index_width_eager
+    | exact src_md_index_width
+    | exact src_lazy_length_init
+    | exact src_lazy_offset_init
+    | exact src_md_floor
+    | exact src_hour_divisor
+    | exact src_minute_divisor
+    | exact src_month_divisor
+
+/-! ## 2. The right rows, the right labels -/
 
 variable {α : Type}
 
@@ -19,51 +221,37 @@ variable {α : Type}
 row is shown exactly once, in order, labelled with its 1-based position, and there is no ellipsis. -/
 theorem visible_all_when_small (rows : List α) (limit : Nat) (lazy : Bool) (hl : 1 ≤ limit)
     (hn : rows.length ≤ 2 * limit) :
-    visibleRows rows limit true lazy = labelFrom 1 rows := by
-  cases lazy with
-  | false => simpa [visibleRows] using eagerLines_small rows limit true hl hn
-  | true =>
-    have h := lazyLines_tt rows limit hl
-    rw [if_neg (by omega)] at h
-    simpa [visibleRows] using h
+    visibleRows srcArith rows limit true lazy = labelFrom 1 rows := by
+  rw [src_arith_eq_spec, visibleRows_closed rows limit true lazy hl]
+  simp only [if_true]; rw [if_neg (by omega)]
 
 /-- **First and last `limit` rows otherwise** (eager and lazy): the first `limit` rows labelled
 `1…limit`, then the ellipsis, then the last `limit` rows labelled with their true positions
 `n-limit+1 … n`; nothing else, nothing repeated. -/
 theorem visible_head_tail (rows : List α) (limit : Nat) (lazy : Bool) (hl : 1 ≤ limit)
     (hn : 2 * limit < rows.length) :
-    visibleRows rows limit true lazy
+    visibleRows srcArith rows limit true lazy
       = labelFrom 1 (rows.take limit) ++ [Line.ellipsis]
         ++ labelFrom (rows.length - limit + 1) (rows.drop (rows.length - limit)) := by
-  cases lazy with
-  | false =>
-    have h := eagerLines_split rows limit true hl hn
-    simp only [if_true] at h
-    have e : limit + (rows.length - 2 * limit) + 1 = rows.length - limit + 1 := by omega
-    rw [e] at h
-    simpa [visibleRows] using h
-  | true =>
-    have h := lazyLines_tt rows limit hl
-    rw [if_pos hn] at h
-    simpa [visibleRows] using h
+  rw [src_arith_eq_spec, visibleRows_closed rows limit true lazy hl]
+  simp only [if_true]; rw [if_pos hn]
 
 /-- **Head-only mode** (`top_and_tail=False`): the first `limit` rows (all rows of a shorter frame),
 in order, labelled from 1, no ellipsis. -/
 theorem visible_head_only (rows : List α) (limit : Nat) (lazy : Bool) (hl : 1 ≤ limit) :
-    visibleRows rows limit false lazy = labelFrom 1 (rows.take limit) := by
-  cases lazy with
-  | false => simpa [visibleRows] using eagerLines_head rows limit true hl
-  | true => simpa [visibleRows] using lazyLines_head rows limit hl
+    visibleRows srcArith rows limit false lazy = labelFrom 1 (rows.take limit) := by
+  rw [src_arith_eq_spec, visibleRows_closed rows limit false lazy hl]
+  simp
 
 /-- **A single ellipsis line, between head and tail, exactly when rows are left out.**  The lines
 split as `pre ++ [ellipsis] ++ post` with `limit` data lines on either side and no other ellipsis
 when `n > 2·limit`; there is no ellipsis at all otherwise (including head-only mode). -/
 theorem one_ellipsis (rows : List α) (limit : Nat) (tt lazy : Bool) (hl : 1 ≤ limit) :
     (tt = true ∧ 2 * limit < rows.length →
-      ∃ pre post, visibleRows rows limit tt lazy = pre ++ [Line.ellipsis] ++ post
+      ∃ pre post, visibleRows srcArith rows limit tt lazy = pre ++ [Line.ellipsis] ++ post
         ∧ pre.length = limit ∧ post.length = limit
         ∧ Line.ellipsis ∉ pre ∧ Line.ellipsis ∉ post)
-    ∧ (¬ (tt = true ∧ 2 * limit < rows.length) → Line.ellipsis ∉ visibleRows rows limit tt lazy) := by
+    ∧ (¬ (tt = true ∧ 2 * limit < rows.length) → Line.ellipsis ∉ visibleRows srcArith rows limit tt lazy) := by
   constructor
   · rintro ⟨rfl, hn⟩
     refine ⟨_, _, visible_head_tail rows limit lazy hl hn, ?_, ?_, ellipsis_not_mem_labelFrom _ _,
@@ -81,7 +269,7 @@ theorem one_ellipsis (rows : List α) (limit : Nat) (tt lazy : Bool) (hl : 1 ≤
 row count, every limit ≥ 1, both modes, eager and lazy.  Rows are identified by their 0-based
 position (`visible n … = visibleRows (List.range n) …`). -/
 theorem labels_true_position (n limit : Nat) (tt lazy : Bool) (hl : 1 ≤ limit) (label row : Nat)
-    (h : Line.data label row ∈ visible n limit tt lazy) : label = row + 1 ∧ row < n := by
+    (h : Line.data label row ∈ visible srcArith n limit tt lazy) : label = row + 1 ∧ row < n := by
   unfold visible at h
   have hlen : (List.range n).length = n := List.length_range
   cases tt with
@@ -113,95 +301,44 @@ theorem labels_true_position (n limit : Nat) (tt lazy : Bool) (hl : 1 ≤ limit)
       simp at h1 h2; omega
 
 /-- **The pinned eager arithmetic is wrong** (`i += t.rowcount - 2*limit` adds 0 because `t` is the
-already cut frame): for every frame with more than `2·limit` rows the tail rows are labelled
-`limit+1 …` instead of `n-limit+1 …`. Repaired by `fix: label tail rows …`. -/
-theorem pinned_eager_tail_labels (rows : List α) (limit : Nat) (hl : 1 ≤ limit)
-    (hn : 2 * limit < rows.length) :
-    eagerLines rows limit true false
-      = labelFrom 1 (rows.take limit) ++ [Line.ellipsis]
-        ++ labelFrom (limit + 1) (rows.drop (rows.length - limit)) := by
-  have h := eagerLines_split rows limit false hl hn
-  simpa using h
-
-/-- The concrete witness replayed on the real code: 5 rows, limit 2 — rows 4 and 5 are labelled 3 and 4. -/
+already cut frame): 5 rows, limit 2 — rows 4 and 5 are labelled 3 and 4; 3 rows, limit 1 — row 3 is
+labelled 2.  The arithmetic in the source now gives 4, 5 and 3.  Repaired by `fix: label tail rows …`. -/
 theorem pinned_eager_counterexample :
-    eagerLines (List.range 5) 2 true false
+    eagerLines pinnedArith (List.range 5) 2 true
       = [.data 1 0, .data 2 1, .ellipsis, .data 3 3, .data 4 4]
-    ∧ eagerLines (List.range 5) 2 true true
+    ∧ eagerLines pinnedArith (List.range 3) 1 true = [.data 1 0, .ellipsis, .data 2 2]
+    ∧ eagerLines srcArith (List.range 5) 2 true
       = [.data 1 0, .data 2 1, .ellipsis, .data 4 3, .data 5 4] := by decide
 
-/-- Non-vacuity: concrete frames on every path (eager/lazy × small/split/head-only). -/
-example :
-    visible 7 3 true false = [.data 1 0, .data 2 1, .data 3 2, .ellipsis, .data 5 4, .data 6 5, .data 7 6]
-    ∧ visible 7 3 true true = visible 7 3 true false
-    ∧ visible 6 3 true true = [.data 1 0, .data 2 1, .data 3 2, .data 4 3, .data 5 4, .data 6 5]
-    ∧ visible 4 3 true true = visible 4 3 true false
-    ∧ visible 2 3 true true = [.data 1 0, .data 2 1]
-    ∧ visible 7 3 false true = [.data 1 0, .data 2 1, .data 3 2]
-    ∧ visible 0 1 true true = [] := by decide
+/-- **The pinned head-only lazy index width is wrong** (`lazy_length` stays 0, so the index column is
+`len("1") + 2 = 3` wide whatever the labels): for a lazily backed frame of 100 rows shown head-only
+with `limit = 100`, label 100 has 3 digits but the pad is 2, so that data line is one character wider
+than the box; with the arithmetic in the source the index column is 5 wide and the label fits.
+Repaired by `fix: size the index column of a head-only lazy ascii_table …`. -/
+theorem pinned_lazy_head_only_index_width :
+    indexWidth pinnedArith 100 100 false true (List.range 100) = 3
+    ∧ Line.data 100 99 ∈ visibleRows pinnedArith (List.range 100) 100 false true
+    ∧ (rjust (pinnedArith.labelPad 3) (natStr 100)).length = 3
+    ∧ indexWidth srcArith 100 100 false true (List.range 100) = 5
+    ∧ (rjust (srcArith.labelPad 5) (natStr 100)).length = 4 := by decide
 
-/-! ## Printed width (printable-ASCII content) -/
+/-! ## 3. Printed width (printable-ASCII content) -/
 
-/-- A frame with printable-ASCII content: as many type names as column names, rectangular rows,
-every name, type name, text parameter and byte printable ASCII (0x20–0x7E). -/
-structure FrameAscii (f : Frame) : Prop where
-  types_len : f.names.length = f.types.length
-  rect : ∀ r ∈ f.rows, r.length = f.names.length
-  names : ∀ s ∈ f.names, PStr s
-  types : ∀ s ∈ f.types, PStr s
-  cells : ∀ r ∈ f.rows, ∀ c ∈ r, CellAscii c
-
-/-- **All box lines have equal printed width.**  For printable-ASCII content, `limit ≥ 1`,
-`max_column_width ≥ 1`, any width table `cw` that gives printable ASCII and the box characters
-width 1: rendering succeeds (either decode mode) and every box line yielded by `_inner()` — borders,
-header, type row, every data row of either mode, eager or lazy — prints exactly
-`tableWidth = 1 + index width + 2 + Σ column widths + 3·(columns−1) + 2` characters, with no colour
-token or escape left open.  (`pwidth` counts characters outside `\x01…m` / `\x1b…m`.) -/
+/-- **All box lines have equal printed width.**  For a frame with printable-ASCII content
+(`FrameAscii`: as many type names as column names, rectangular rows, every name, type name, text
+parameter and byte in 0x20–0x7E), `limit ≥ 1`, `max_column_width ≥ 1`, any width table `cw` that gives
+printable ASCII and the box characters width 1: rendering succeeds (either decode mode) and every box
+line yielded by `_inner()` — borders, header, type row, every data row of either mode, eager or lazy —
+prints exactly `tableWidth = 1 + index width + 2 + Σ column widths + 3·(columns−1) + 2` characters,
+with no colour token or escape left open.  (`pwidth` counts characters outside `\x01…m` / `\x1b…m`.) -/
 theorem box_lines_equal_width (cw : Char → Nat) (hcw : ∀ c, Printable c → cw c = 1)
     (hbox : ∀ c ∈ boxChars, cw c = 1) (p : Params) (f : Frame) (hf : FrameAscii f)
     (hl : 1 ≤ p.limit) (hm : 1 ≤ p.maxCol) :
-    ∃ lines, rawLines cw p f = .ok lines
+    ∃ lines, rawLines srcArith cw p f = .ok lines
       ∧ ∀ l ∈ lines, l.1 = true →
-          pwidth l.2 = tableWidth (idxWidth p f) (colWidths p f) ∧ scan false l.2 = (pwidth l.2, false)
-            ∧ OkStr l.2 := by
-  have hcw' := colWidthsGo_spec p.showTypes p.maxCol (cutRows f.rows p.limit p.tt p.lazy) hm 0 f.names f.types
-    hf.types_len
-  have hwlen : (colWidths p f).length = f.names.length := hcw'.1
-  have hws : ∀ w ∈ colWidths p f, 1 ≤ w := hcw'.2
-  obtain ⟨body, hb, hW⟩ := bodyLines_width cw hcw hbox p (idxWidth p f) (colWidths p f) hws
-    (visibleRows f.rows p.limit p.tt p.lazy) (by
-      intro label row hmem
-      obtain ⟨hrow, _, _⟩ := visibleRows_data f.rows p.limit p.tt p.lazy hl label row hmem
-      exact ⟨label_fits f.rows p.limit p.tt p.lazy hl label row hmem, by rw [hf.rect row hrow, hwlen],
-        hf.cells row hrow⟩)
-  have conv : ∀ {s : Str} {w : Nat}, W s w → OkStr s →
-      pwidth s = w ∧ scan false s = (pwidth s, false) ∧ OkStr s := by
-    intro s w h ho
-    unfold W at h
-    exact ⟨by simp [pwidth, h], by simp [pwidth, h], ho⟩
-  have okb : ∀ c ∈ boxChars, Ok c := fun c hc => Or.inr (Or.inr hc)
-  have hbord : ∀ (l m r fill : Char), l ∈ boxChars → m ∈ boxChars → r ∈ boxChars → fill ∈ boxChars →
-      W (border l m r fill (idxWidth p f) (colWidths p f)) (tableWidth (idxWidth p f) (colWidths p f))
-      ∧ OkStr (border l m r fill (idxWidth p f) (colWidths p f)) := by
-    intro l m r fill h1 h2 h3 h4
-    exact ⟨border_width l m r fill _ _ (box_facts l h1).1 (box_facts m h2).1 (box_facts r h3).1 (box_facts fill h4).1,
-      border_ok l m r fill _ _ (okb l h1) (okb m h2) (okb r h3) (okb fill h4)⟩
-  have hhead := headerLine_width T_HEAD (by simp [usedTokens]) (idxWidth p f) f.names (colWidths p f) hf.names
-    hwlen.symm
-  have htype := headerLine_width T_TYPE (by simp [usedTokens]) (idxWidth p f) f.types (colWidths p f) hf.types
-    (by rw [hwlen, hf.types_len])
-  refine ⟨_, by simp only [rawLines, hb]; rfl, ?_⟩
-  intro l hl hbx
-  simp only [List.mem_append, List.mem_cons, List.not_mem_nil, or_false] at hl
-  rcases hl with ((((rfl | rfl) | hl) | rfl) | hl) | rfl
-  · have := hbord '┌' '┬' '┐' '─' (by decide) (by decide) (by decide) (by decide); exact conv this.1 this.2
-  · exact conv hhead.1 hhead.2
-  · split at hl
-    · simp only [List.mem_cons, List.not_mem_nil, or_false] at hl; subst hl; exact conv htype.1 htype.2
-    · simp at hl
-  · have := hbord '╞' '╪' '╡' '═' (by decide) (by decide) (by decide) (by decide); exact conv this.1 this.2
-  · have := hW l hl hbx; exact conv this.1 this.2
-  · have := hbord '└' '┴' '┘' '─' (by decide) (by decide) (by decide) (by decide); exact conv this.1 this.2
+          pwidth l.2 = tableWidth (idxWidth srcArith p f) (colWidths srcArith p f)
+            ∧ scan false l.2 = (pwidth l.2, false) ∧ OkStr l.2 := by
+  rw [src_arith_eq_spec]; exact box_lines_equal_width_spec cw hcw hbox p f hf hl hm
 
 /-- **…within the display width.**  After the final `trunc_printable(line, display_width, False)`
 every box line prints exactly `min tableWidth display_width` characters (`display_width ≥ 1`): all
@@ -209,80 +346,51 @@ box lines still have equal printed width, and it never exceeds the display width
 theorem within_display_width (cw : Char → Nat) (hcw : ∀ c, Printable c → cw c = 1)
     (hbox : ∀ c ∈ boxChars, cw c = 1) (p : Params) (f : Frame) (hf : FrameAscii f)
     (hl : 1 ≤ p.limit) (hm : 1 ≤ p.maxCol) (hd : 1 ≤ p.displayWidth) :
-    ∃ lines, renderLines cw p f = .ok lines
+    ∃ lines, renderLines srcArith cw p f = .ok lines
       ∧ ∀ l ∈ lines, l.1 = true →
-          pwidth l.2 = min (tableWidth (idxWidth p f) (colWidths p f)) p.displayWidth
+          pwidth l.2 = min (tableWidth (idxWidth srcArith p f) (colWidths srcArith p f)) p.displayWidth
           ∧ pwidth l.2 ≤ p.displayWidth := by
-  obtain ⟨raw, hr, hW⟩ := box_lines_equal_width cw hcw hbox p f hf hl hm
-  refine ⟨_, by simp only [renderLines, hr]; rfl, ?_⟩
-  intro l hl hbx
-  simp only [List.mem_map] at hl
-  obtain ⟨l0, hl0, rfl⟩ := hl
-  obtain ⟨hw, _, hok⟩ := hW l0 hl0 hbx
-  have hgood : ∀ c ∈ l0.2, Good cw c := fun c hc => ok_good cw hcw hbox (hok c hc)
-  have := truncGo_line cw p.displayWidth l0.2 hgood 0 false (by omega)
-  have e : pwidth (truncPrintable cw l0.2 p.displayWidth false) = min (pwidth l0.2) p.displayWidth := by
-    simp [pwidth, truncPrintable, this]
-  simp only [e, hw]
-  exact ⟨trivial, Nat.min_le_right _ _⟩
+  rw [src_arith_eq_spec]; exact within_display_width_spec cw hcw hbox p f hf hl hm hd
 
 /-- `trunc_printable` in general (any text without line breaks whose visible characters have width 1,
 whatever escapes it contains, well-formed or not): the cut line prints `min (its width) width`. -/
 theorem trunc_line_width (cw : Char → Nat) (width : Nat) (l : Str) (hl : ∀ c ∈ l, Good cw c) (hw : 1 ≤ width) :
-    pwidth (truncPrintable cw l width false) = min (pwidth l) width := by
-  have := truncGo_line cw width l hl 0 false (by omega)
-  simp [pwidth, truncPrintable, this]
+    pwidth (truncPrintable srcArith cw l width false) = min (pwidth l) width := by
+  rw [src_arith_eq_spec]; exact trunc_line_width_spec cw width l hl hw
 
-/-! ## Never fails -/
+/-! ## 4. Never fails -/
 
 /-- **The formatter is total over the modelled cell kinds** (repaired code, `errors="replace"`): for
-every cell of every kind — bytes of any content included — and every width, `type_formatter` returns
-text; and a whole table renders whenever no cell fails. -/
-theorem formatter_total (cw : Char → Nat) (c : Cell) (w : Nat) : ∃ s, formatCell cw false c w = .ok s := by
-  cases c with
-  | bytes b n =>
-    obtain ⟨s, hs⟩ := utf8Go_total (b.length + 1) b
-    exact ⟨T_BLOB ++ truncPrintable cw (ljust w s) w true ++ T_OFF, by simp [formatCell, utf8Decode, hs]⟩
-  | _ => exact ⟨_, rfl⟩
+every cell of every kind — bytes of any content included — and every width, `type_formatter` returns text. -/
+theorem formatter_total (cw : Char → Nat) (c : Cell) (w : Nat) : ∃ s, formatCell srcArith cw false c w = .ok s :=
+  formatter_total_any srcArith cw c w
 
 /-- The pinned call `value.decode("utf-8")` is partial: a byte string that is not UTF-8 makes the
 formatter fail (`UnicodeDecodeError`), while the repaired call renders U+FFFD. -/
 theorem strict_decode_fails (cw : Char → Nat) :
-    formatCell cw true (.bytes [0xff, 0xfe] 11) 11 = .error .unicodeDecode
+    formatCell srcArith cw true (.bytes [0xff, 0xfe] 11) 11 = .error .unicodeDecode
     ∧ utf8Decode false [0xff, 0xfe] = .ok [replacement, replacement] := by
   constructor <;> rfl
 
 /-- Every table renders (replace mode), whatever the cells, names, types and parameters. -/
 theorem render_total (cw : Char → Nat) (p : Params) (f : Frame) (hp : p.strict = false) :
-    ∃ lines, renderLines cw p f = .ok lines := by
-  have hrow : ∀ (row : List Cell) (ws : List Nat), ∃ cells, formatRow cw false row ws = .ok cells := by
-    intro row
-    induction row with
-    | nil => intro ws; exact ⟨[], by simp [formatRow]⟩
-    | cons c cs ih =>
-      intro ws
-      cases ws with
-      | nil => exact ⟨[], by simp [formatRow]⟩
-      | cons w ws =>
-        obtain ⟨s, hs⟩ := formatter_total cw c w
-        obtain ⟨rest, hr⟩ := ih ws
-        exact ⟨s :: rest, by simp [formatRow, hs, hr]⟩
-  have hbody : ∀ (iw : Nat) (ws : List Nat) (ls : List (Line (List Cell))),
-      ∃ out, bodyLines cw p iw ws ls = .ok out := by
-    intro iw ws ls
-    induction ls with
-    | nil => exact ⟨[], rfl⟩
-    | cons l rest ih =>
-      obtain ⟨out, ho⟩ := ih
-      cases l with
-      | ellipsis => exact ⟨(false, ellipsisLine p.lazy) :: out, by simp [bodyLines, ho]⟩
-      | data label row =>
-        obtain ⟨cells, hc⟩ := hrow row ws
-        exact ⟨(true, dataLine iw label cells) :: out, by simp [bodyLines, ho, hp, hc]⟩
-  obtain ⟨body, hb⟩ := hbody (idxWidth p f) (colWidths p f) (visibleRows f.rows p.limit p.tt p.lazy)
-  exact ⟨_, by simp only [renderLines, rawLines, hb]; rfl⟩
+    ∃ lines, renderLines srcArith cw p f = .ok lines := render_total_any srcArith cw p f hp
 
-/-! ## Colour tokens (tie to the extracted `COLORS` table) -/
+/-! ## 5. Intervals -/
+
+/-- **The hours / minutes / seconds decomposition is exact** for every (also negative) number of whole
+seconds and months, with the divisors the source contains: `h·3600 + m·60 + s = total`,
+`0 ≤ m < 60`, `0 ≤ s < 60`; `y·12 + mo = months`, `0 ≤ mo < 12`. -/
+theorem interval_decomposition_exact (months secs : Int) :
+    let p := splitInterval srcArith months secs
+    p.hours * 3600 + p.minutes * 60 + p.seconds = secs ∧ 0 ≤ p.minutes ∧ p.minutes < 60
+      ∧ 0 ≤ p.seconds ∧ p.seconds < 60
+      ∧ p.years * 12 + p.months = months ∧ 0 ≤ p.months ∧ p.months < 12 := by
+  simp only [splitInterval, src_hour_divisor, src_minute_divisor, src_month_divisor, spec_hourDiv, spec_minuteDiv,
+    spec_monthDiv]
+  omega
+
+/-! ## 6. Colour tokens (tie to the extracted `COLORS` table) -/
 
 /-- Every token and every ANSI replacement in `COLORS` prints nothing and closes its escape — so
 `colorizer` (either branch) does not change the printed width measured by `pwidth`. -/
@@ -295,15 +403,159 @@ theorem tokens_defined :
     (∀ t ∈ Gen.Display.tokensUsed, t ∈ Gen.Display.colors.map Prod.fst)
     ∧ (∀ t ∈ usedTokens, t ∈ Gen.Display.colors.map Prod.fst) := by decide
 
-/-- Non-vacuity of the width theorems: a concrete two-column ASCII frame, split table, narrow display. -/
-example :
-    let f : Frame := { names := [['i', 'd'], ['n', 'a', 'm', 'e']], types := [['0'], ['0']],
-                       rows := (List.range 7).map fun i => [.int (Int.ofNat i), .text ['a', 'b']] }
-    let p : Params := { limit := 2, tt := true, lazy := true, showTypes := true, maxCol := 30, displayWidth := 12,
-                        strict := false }
-    (match renderLines cwModel p f with
-      | .ok ls => ls.length == 10 && (ls.filter (·.1)).all (fun l => pwidth l.2 == 12)
-      | .error _ => false) = true
-    ∧ tableWidth (idxWidth p f) (colWidths p f) = 19 := by decide
+
+/-- Shape of the extracted table: every key is a token (`\x01`, a name without `\x01` and without `m`,
+then `m`), and no ANSI replacement contains the marker `\x01`. -/
+theorem colors_table_shape :
+    (∀ kv ∈ Gen.Display.colors, tokShapeB kv.1 = true) ∧ (∀ kv ∈ Gen.Display.colors, '\x01' ∉ kv.2) := by decide
+
+/-- **`colorizer` substitutes exactly the tokens.**  For every string in token form — text segments
+without the marker `\x01`, and tokens that are keys of `COLORS` — the loop
+`for k, v in COLORS.items(): record = record.replace(k, v or "")` over the **extracted** table returns
+the same segments with every token replaced by its ANSI code (colour on) or removed (colour off), the
+text untouched.  (`replaceAll` is Python's leftmost non-overlapping `str.replace`.) -/
+theorem colorizer_substitutes_tokens (on : Bool) (segs : List Seg)
+    (hs : ∀ sg ∈ segs, SegOk (Gen.Display.colors.map Prod.fst) sg) :
+    colorize Gen.Display.colors on (flat segs) = flat (segs.map (resolve Gen.Display.colors on))
+    ∧ ∀ sg ∈ segs.map (resolve Gen.Display.colors on), ∃ s, sg = .txt s := by
+  have hk : ∀ kv ∈ Gen.Display.colors, TokShape kv.1 := fun kv h => tokShape_of_B (colors_table_shape.1 kv h)
+  have hkeys : ∀ k ∈ Gen.Display.colors.map Prod.fst, TokShape k := by
+    intro k hk'; simp only [List.mem_map] at hk'; obtain ⟨kv, h, rfl⟩ := hk'; exact hk kv h
+  refine ⟨colorize_segs _ on hk colors_table_shape.2 _ hkeys segs hs, ?_⟩
+  intro sg hsg
+  simp only [List.mem_map] at hsg
+  obtain ⟨s0, h0, rfl⟩ := hsg
+  cases s0 with
+  | txt s => exact ⟨s, rfl⟩
+  | tok k =>
+    have hmem := hs _ h0
+    simp only [SegOk, List.mem_map] at hmem
+    obtain ⟨kv, hkv, rfl⟩ := hmem
+    simp only [resolve]
+    cases hf : Gen.Display.colors.find? (fun x => x.1 == kv.1) with
+    | some x => exact ⟨_, rfl⟩
+    | none =>
+      have := List.find?_eq_none.mp hf kv hkv
+      simp at this
+
+/-- **…and keeps the printed width.**  If moreover the text segments contain no escape character at
+all, the colourised / stripped string prints exactly the text: `Σ text lengths` characters, as the
+token-level string does under `pwidth`, and no escape is left open. -/
+theorem colorizer_keeps_width (on : Bool) (segs : List Seg)
+    (hs : ∀ sg ∈ segs, SegOk (Gen.Display.colors.map Prod.fst) sg)
+    (ht : ∀ s, Seg.txt s ∈ segs → ∀ c ∈ s, isEsc c = false) :
+    scan false (colorize Gen.Display.colors on (flat segs)) = ((segs.map segWidth).sum, false)
+    ∧ scan false (flat segs) = ((segs.map segWidth).sum, false) := by
+  have hinv := tokens_invisible
+  have htok : ∀ k, Seg.tok k ∈ segs → ∃ kv ∈ Gen.Display.colors, kv.1 = k := by
+    intro k hk
+    have hmem := hs _ hk
+    simp only [SegOk, List.mem_map] at hmem
+    obtain ⟨kv, hkv, rfl⟩ := hmem
+    exact ⟨kv, hkv, rfl⟩
+  constructor
+  · rw [(colorizer_substitutes_tokens on segs hs).1]
+    refine W_flat_map (resolve Gen.Display.colors on) segWidth segs ?_
+    intro sg hsg
+    cases sg with
+    | txt s => exact W_noesc s (ht s hsg)
+    | tok k =>
+      obtain ⟨kv, hkv, rfl⟩ := htok k hsg
+      simp only [resolve, segWidth]
+      cases hf : Gen.Display.colors.find? (fun x => x.1 == kv.1) with
+      | none =>
+        have := List.find?_eq_none.mp hf kv hkv
+        simp at this
+      | some x =>
+        have hx : x ∈ Gen.Display.colors := List.mem_of_find?_eq_some hf
+        simp only [Seg.flat]
+        split
+        · exact (hinv x hx).2
+        · exact W_nil
+  · have := W_flat_map id segWidth segs (by
+      intro sg hsg
+      cases sg with
+      | txt s => exact W_noesc s (ht s hsg)
+      | tok k =>
+        obtain ⟨kv, hkv, rfl⟩ := htok k hsg
+        exact (hinv kv hkv).1)
+    simp only [List.map_id] at this
+    exact this
+
+/-! ## 7. Markdown -/
+
+/-- **The rows Markdown shows**: after the header and the separator come exactly the first `limit`
+rows of the frame (all rows of a shorter frame), in order, the `k`-th labelled `k + 1` and padded to
+`index width − 1`. -/
+theorem markdown_rows (limit maxCol : Nat) (f : MdFrame) (hl : 1 ≤ limit) :
+    (markdownLines srcArith limit maxCol f).length = 2 + min limit f.rows.length
+    ∧ ∀ k l, ((markdownLines srcArith limit maxCol f).drop 2)[k]? = some l →
+        l.idx = ['|'] ++ rjust ((natStr f.rows.length).length - 1) (natStr (k + 1)) ++ [' ', '|', ' '] := by
+  rw [src_arith_eq_spec]
+  simp only [markdownLines, dfSlice_head f.rows limit hl]
+  constructor
+  · simp only [List.length_append, List.length_cons, List.length_nil, mdRowsGo_length, List.length_take] <;> omega
+  · intro k l h
+    simp only [List.cons_append, List.nil_append, List.drop_succ_cons, List.drop_zero] at h
+    have := mdRowsGo_idx specArith _ _ 0 _ k l h
+    simpa using this
+
+/-- **Markdown columns line up**: for a rectangular frame, the columns part of every line — header,
+separator and every data row — has the same length `Σ column widths + 3·(columns−1) + 2`, whatever
+the cell text (cells are padded or cut to the column width by code points). -/
+theorem markdown_columns_equal_width (limit maxCol : Nat) (f : MdFrame) (hl : 1 ≤ limit)
+    (hrect : ∀ r ∈ f.rows, r.length = f.names.length) :
+    ∀ l ∈ markdownLines srcArith limit maxCol f,
+      l.cols.length = mdColsWidth (mdColWidthsGo srcArith maxCol (f.rows.take limit) 0 f.names) := by
+  rw [src_arith_eq_spec]
+  intro l hmem
+  have hwl := mdColWidthsGo_length specArith maxCol (f.rows.take limit) 0 f.names
+  simp only [markdownLines, dfSlice_head f.rows limit hl, List.mem_append, List.mem_cons, List.not_mem_nil,
+    or_false] at hmem
+  rcases hmem with (rfl | rfl) | hmem
+  · have hz := zipWithTrunc_lengths (fun (v : Str) w => (ljust w v).take w) (fun v w => length_take_ljust w v)
+      f.names _ hwl.symm
+    simp only [List.length_append, length_joinWith3 (sep := [' ', '|', ' ']) rfl, hz.1, hz.2, mdColsWidth]
+    rfl
+  · have hm : ((mdColWidthsGo specArith maxCol (f.rows.take limit) 0 f.names).map
+        (fun w => List.replicate w '-')).map List.length
+        = mdColWidthsGo specArith maxCol (f.rows.take limit) 0 f.names := map_length_replicate '-' _
+    simp only [List.length_append, length_joinWith3 (sep := ['-', '|', '-']) rfl, hm, List.length_map, mdColsWidth]
+    rfl
+  · exact mdRowsGo_cols specArith _ _ 0 _ (fun r hr => by rw [hrect r (List.mem_of_mem_take hr), hwl]) l hmem
+
+/-- **The Markdown index column**: the header's index part is `5 + (iw − 2)` long, the separator's
+`iw + 3`, a data row's `4 + max (iw − 1) (digits of its label)` (`iw = len(str(n))`).  They agree
+(`iw + 3`) exactly when `iw ≥ 2` and the label has fewer digits than `n`. -/
+theorem markdown_index_column (limit maxCol : Nat) (f : MdFrame) (hl : 1 ≤ limit) :
+    let iw := (natStr f.rows.length).length
+    (∀ l, (markdownLines srcArith limit maxCol f)[0]? = some l → l.idx.length = 5 + (iw - 2))
+    ∧ (∀ l, (markdownLines srcArith limit maxCol f)[1]? = some l → l.idx.length = iw + 3)
+    ∧ (∀ k l, ((markdownLines srcArith limit maxCol f).drop 2)[k]? = some l →
+        l.idx.length = 4 + max (iw - 1) (natStr (k + 1)).length) := by
+  intro iw
+  refine ⟨?_, ?_, ?_⟩
+  · intro l h
+    rw [src_arith_eq_spec] at h
+    simp only [markdownLines, List.cons_append, List.getElem?_cons_zero, Option.some.injEq] at h
+    rw [← h]; simp [spaces, iw] <;> omega
+  · intro l h
+    rw [src_arith_eq_spec] at h
+    simp only [markdownLines, List.cons_append, List.getElem?_cons_succ, List.getElem?_cons_zero,
+      Option.some.injEq] at h
+    rw [← h]; simp [iw] <;> omega
+  · intro k l h
+    rw [(markdown_rows limit maxCol f hl).2 k l h]
+    simp [length_rjust, iw] <;> omega
+
+/-- **Markdown's index column is ragged** (not required by the property; recorded so that nobody
+reads `markdown_columns_equal_width` as more than it says): with 3 rows the separator's index part is
+one character shorter than the header's and the rows'; with 10 rows, row 10 is one character longer
+than the others. -/
+theorem markdown_index_ragged :
+    ((markdownLines srcArith 5 30 { names := [['a']], rows := List.replicate 3 [⟨false, ['x']⟩] }).map
+        (fun l => l.idx.length)) = [5, 4, 5, 5, 5]
+    ∧ ((markdownLines srcArith 10 30 { names := [['a']], rows := List.replicate 10 [⟨false, ['x']⟩] }).map
+        (fun l => l.idx.length)) = [5, 5, 5, 5, 5, 5, 5, 5, 5, 5, 5, 6] := by decide
 
 end C18
